@@ -22,7 +22,8 @@ RULE = ("a case = (script, fault map): the script fixes mode (foreground/daemon,
         "serverproc.poll() result, per loop iteration the ssh liveness answer, the tunnel bytes arriving "
         "(sync string / ROUTES / HOST_LIST / PING / data / garbage, cut anywhere; ROUTES early, late, twice or "
         "never; EOF), the write grant and an incoming connection, the helper's reply line / exit status, and "
-        "how the session ends (SIGINT, SIGTERM, ssh death with any status); the fault map makes the k-th stub "
+        "how the session ends (SIGINT, SIGTERM, ssh death with any status, with or without EOF on its stdout; "
+        "non-frame bytes on the tunnel while ssh stays alive); the fault map makes the k-th stub "
         "call raise one of 9 exception kinds (Fatal, OSError EPIPE/ECONNRESET/EAGAIN/EIO, KeyboardInterrupt, "
         "SystemExit, AssertionError, Exception) — ALL k of the run x all kinds for every script, plus random "
         "double faults (one in the body, one in the finally part); non-trivial = the run got past ssh.connect; "
@@ -62,6 +63,11 @@ ASSUMPTIONS = [
     "select is truthful: it reports the ssh pipe readable iff bytes or EOF are pending, writable iff the "
     "script grants a write",
     "tcp_listener.v4 is never None (main asserts IPv4 support)",
+    "process table: in foreground mode ssh is a child of the client; once it has exited, kill(pid, 0) keeps "
+    "succeeding (zombie) until Popen.poll() collects the status; after daemonize() ssh is an orphan that init "
+    "reaps at once, so kill(pid, 0) raises ESRCH",
+    "a corrupted tunnel stream must release the helper within 2 further loop rounds (on the unchanged code: "
+    "none, the AssertionError of Mux.handle leaves _main at once)",
 ]
 
 FAKE_PID = 0x3ffffff0
@@ -123,6 +129,10 @@ class World:
         self.consumed_mux = b''   # bytes handed to Mux.fill
         self.info = []            # oracle side notes: (event index, what)
         self.closed = False
+        self.dead_rv = None       # exit status once the scripted world has let ssh exit
+        self.reaped = False       # a poll()/waitpid of the parent has collected that status
+        self.daemonized = False   # after daemonize() ssh is no longer our child (init reaps it at once)
+        self.probed = -1          # last loop iteration whose liveness probe reached the world
 
     def call(self, ev):
         idx = self.calls
@@ -149,7 +159,10 @@ class World:
             self.chunks.append(bytes(a))
         self.grant = st['grant']
         self.acceptable = bool(st['accept'])
-        return st['alive']
+        self.probed = self.iter
+        if st['alive'] is not None and self.dead_rv is None:
+            self.dead_rv = st['alive']
+        return self.dead_rv
 
 
 class PipeR:
@@ -178,6 +191,7 @@ class PipeR:
             w.chunks.pop(0)
         if w.polled0:
             w.consumed_mux += out
+            w.info.append((len(w.events) - 1, 'mread', len(w.consumed_mux)))
         else:
             w.consumed_hs += out
         return out
@@ -211,7 +225,10 @@ class SshProc:
             w.polled0 = True
             return w.s['poll0']
         w.call('poll')
-        return w.advance()
+        rv = w.advance()
+        if rv is not None:
+            w.reaped = True       # Popen.poll() = waitpid(WNOHANG): the zombie is collected
+        return rv
 
 
 class HelperProc:
@@ -455,7 +472,9 @@ def run_real(script, faults):
         if pid == FAKE_PID and sig == 0:
             w.call('kill')
             rv = w.advance()
-            if rv is not None:
+            # kernel semantics: the pid of an exited child stays valid (zombie) until its parent reaps it,
+            # so kill(pid, 0) succeeds; an orphan (after daemonize) is reaped by init at once -> ESRCH
+            if rv is not None and (w.daemonized or w.reaped):
                 raise OSError(errno.ESRCH, 'No such process')
             return None
         return real_kill(pid, sig)
@@ -471,7 +490,10 @@ def run_real(script, faults):
     client.Mux = RecMux
     client.log = lambda s: None
     client.check_daemon = lambda pidfile: None
-    client.daemonize = lambda: w.call('daemonize')
+    def daemonize():
+        w.call('daemonize')
+        w.daemonized = True
+    client.daemonize = daemonize
     client.daemon_cleanup = lambda: w.call('cleanup')
     ssh.connect = connect
     ssnet.runonce = runonce
@@ -559,6 +581,20 @@ def frames_in(stream):
 
 
 CMD_ROUTES = 0x4207
+ROUNDS_BOUND = 2
+
+
+def stream_corrupt(stream):
+    """At a frame boundary at least 8 bytes are present and they do not start a frame."""
+    pos = 0
+    while len(stream) - pos >= 8:
+        if stream[pos:pos + 2] != b'SS':
+            return True
+        n = struct.unpack('!H', stream[pos + 6:pos + 8])[0]
+        if len(stream) - pos - 8 < n:
+            return False
+        pos += 8 + n
+    return False
 
 
 def oracle(script, faults, events, outcome, w):
@@ -605,17 +641,32 @@ def oracle(script, faults, events, outcome, w):
     elif any(i > closes[0] for i in pf_use):
         bad.append(('C12:pfile-used-after-close', 'close is the last pfile event',
                     'close at %d, later use at %r' % (closes[0], [i for i in pf_use if i > closes[0]])))
-    # R5: ssh reported dead at iteration i => no runonce at i
-    live = [i for i, e in enumerate(ev) if e == 'kill'] if script['daemon'] else \
-        [i for i, e in enumerate(ev) if e == 'poll'][1:]
+    # R5: ssh has exited by the liveness probe of iteration i => no runonce at i (the probe must notice:
+    # foreground ssh is a child whose status only poll() collects; kill(pid, 0) on the zombie succeeds)
     for it, st in enumerate(script['steps']):
-        if st['alive'] is not None and len(live) > it:
+        if st['alive'] is not None and w.probed >= it:
             if 'run%d' % it in ev:
-                bad.append(('C12:runonce-after-ssh-death', 'no runonce in the iteration that saw ssh dead',
-                            'run%d present' % it))
+                bad.append(('C12:runonce-after-ssh-death', 'no runonce in the iteration whose liveness probe ran after ssh exited',
+                            'run%d present although ssh had exited with %r before the probe of iteration %d (%s mode)'
+                            % (it, st['alive'], it, 'daemon' if script['daemon'] else 'foreground')))
             if not faults and outcome != 'exc=fatal':
                 bad.append(('C12:ssh-death-not-fatal', 'exc=fatal', outcome))
             break
+    # R7: a corrupted tunnel stream (>= 8 bytes at a frame boundary that are not a frame header) with ssh
+    # still alive must release the helper within ROUNDS_BOUND further loop rounds
+    corrupt_at = None
+    for x in w.info:
+        if x[1] == 'mread' and stream_corrupt(w.consumed_mux[:x[2]]):
+            corrupt_at = x[0]
+            break
+    if corrupt_at is not None and starts:
+        frm = max(corrupt_at, starts[0])
+        later = [e for e in ev[frm:] if e.startswith('run')]
+        if len(later) > ROUNDS_BOUND:
+            bad.append(('C12:tunnel-corrupt:helper-not-released',
+                        'after non-frame bytes on the tunnel the session ends (pfile closed) within %d loop rounds' % ROUNDS_BOUND,
+                        'corrupt header read at event %d; %d further rounds (%s) with the helper started and pfile open'
+                        % (corrupt_at, len(later), ','.join(later))))
     return bad
 
 
@@ -711,9 +762,16 @@ def gen_script(rng, ssnet, flavour):
             arrive = 'E'
         elif eof_at is not None and i > eof_at:
             arrive = None
+        if i == die_at and rng.random() < 0.5:
+            arrive = 'E'
         steps.append(dict(alive=(rng.choice([0, 1, 255, -15]) if i == die_at else None), arrive=arrive,
                           grant=rng.choice([None, None, 0, 1, 5, 100, 4096]),
                           accept=1 if rng.random() < 0.2 else 0))
+    if flavour == 'corrupt':
+        steps.append(dict(alive=None, arrive=bytes(rng.randrange(256) for _ in range(rng.randrange(8, 30))),
+                          grant=rng.choice([None, 100]), accept=0))
+        for _ in range(rng.randrange(3, 5)):
+            steps.append(dict(alive=None, arrive=None, grant=None, accept=rng.randrange(2)))
     s['steps'] = steps
     if flavour == 'helper':
         s['line'] = rng.choice([b'', b'STARTED', b'ERROR\n', b'STARTED\n', b'started\n'])
@@ -725,7 +783,7 @@ def gen_script(rng, ssnet, flavour):
 
 
 FLAVOURS = ['normal', 'normal', 'routes-late', 'routes-never', 'routes-twice', 'mixed', 'badhs', 'badhs',
-            'sshdeath', 'sshdeath', 'helper', 'mixed', 'normal', 'bigseed']
+            'sshdeath', 'sshdeath', 'helper', 'mixed', 'corrupt', 'bigseed', 'normal']
 
 
 def negative_alive(s):
@@ -810,6 +868,21 @@ def fixed_scripts(ssnet):
     out.append(dict(base, hs=[sync + r],
                     steps=[dict(alive=None, arrive=None, grant=4096, accept=0), dict(alive=None, arrive='E', grant=None, accept=0),
                            dict(alive=None, arrive=None, grant=None, accept=0), dict(alive=0, arrive=None, grant=None, accept=0)]))
+    quiet = dict(alive=None, arrive=None, grant=None, accept=0)
+    # non-frame bytes on the tunnel after the helper was started, ssh stays alive for 4 more rounds
+    for d in (0, 1):
+        out.append(dict(base, daemon=d, end='sysexit' if d else 'kbint', hs=[sync + r],
+                        steps=[dict(quiet, grant=4096), dict(quiet, arrive=b'bash: line 1: exec: python3: not found\n'),
+                               dict(quiet), dict(quiet, accept=1), dict(quiet), dict(quiet)]))
+    # same, garbage glued to a good frame and cut inside the bad header
+    out.append(dict(base, hs=[sync], steps=[dict(quiet, arrive=r + fr(0, ssnet.CMD_PING, b'x') + b'Conn', grant=9),
+                                            dict(quiet, arrive=b'ection closed by remote host\r\n'),
+                                            dict(quiet), dict(quiet), dict(quiet), dict(quiet)]))
+    # foreground / daemon: ssh exits (stdout reaches EOF) in iteration 1, the script would go on for 4 rounds
+    for d in (0, 1):
+        out.append(dict(base, daemon=d, end='sysexit' if d else 'kbint', hs=[sync + r],
+                        steps=[dict(quiet, grant=4096), dict(quiet, alive=255, arrive='E'),
+                               dict(quiet), dict(quiet, accept=1), dict(quiet), dict(quiet)]))
     return out
 
 
